@@ -55,9 +55,9 @@ func cstr(s []byte) []byte { return append(append([]byte(nil), s...), 0) }
 func rawTLVs(r *Rng) []byte {
 	var b []byte
 	n := r.Pick([]int{0, 1, 2, 3, 5, 9})
-	tags := []uint16{0x0005, 0x0204, 0x0424, 0x1400, 0x0005, 0x0001, 0xFFFF, uint16(r.U64())}
+	tags := []uint16{0x0005, 0x0204, 0x0424, 0x1400, 0x0005, 0x0001, 0xFFFF, uint16(r.U64()), genTag(r), genTag(r), 0x020C, 0x020E, 0x020F}
 	for i := 0; i < n; i++ {
-		tag := tags[r.Intn(len(tags))] // duplicates and unsorted order on purpose
+		tag := tags[r.Intn(len(tags))] // duplicates and unsorted order on purpose; standard tags, the segmentation triple together
 		l := r.Pick([]int{0, 0, 1, 2, 7, 30})
 		var h [4]byte
 		binary.BigEndian.PutUint16(h[:], tag)
@@ -116,7 +116,16 @@ func handBody(r *Rng, multi bool) []byte {
 			ies = append(ies, ids[r.Intn(len(ids))], byte(l))
 			ies = append(ies, r.Bytes(l)...)
 		}
+		if r.Intn(8) == 0 {
+			// the last element overruns UDHL by up to 255 octets: the decoded header is far longer than sm_length
+			ies = append(ies, byte(r.Intn(256)), byte(r.Pick([]int{200, 254, 255})))
+			ies = append(ies, r.Bytes(255)...)
+			ies = ies[:len(ies)-r.Intn(2)*r.Intn(40)]
+		}
 		udhl := len(ies)
+		if udhl > 255 {
+			udhl = r.Pick([]int{1, 3, 250, 255})
+		}
 		switch r.Intn(6) {
 		case 0: // UDHL lies: covers fewer octets than the elements occupy
 			if udhl > 0 {
@@ -126,9 +135,20 @@ func handBody(r *Rng, multi bool) []byte {
 			udhl += r.Intn(3)
 		}
 		udh = append([]byte{byte(udhl)}, ies...)
+		if r.Intn(10) == 0 {
+			// a decoded header of about 500 octets behind a tiny sm_length: two elements of 250 and 255 octets, the second
+			// starting just inside UDHL (the reader only checks where an element starts)
+			a, b := byte(r.Intn(100)), byte(100+r.Intn(100))
+			udh = append([]byte{byte(r.Pick([]int{253, 254, 255})), a, 250}, r.Bytes(250)...)
+			udh = append(udh, b, 255)
+			udh = append(udh, r.Bytes(255)...)
+		}
 	}
-	msg := r.Bytes(r.Pick([]int{0, 1, 5, 20, 100}))
+	msg := r.Bytes(r.Pick([]int{0, 1, 5, 20, 100, 100, 141, 200, 250})) // > 140: ReadPDU accepts what Marshal refuses
 	smlen := len(udh) + len(msg)
+	if len(udh) > 300 {
+		smlen = r.Intn(30)
+	}
 	switch r.Intn(8) {
 	case 0: // sm_length smaller than the UDH
 		if len(udh) > 0 {
